@@ -165,13 +165,18 @@ Proof.
 Qed.
 
 
-Lemma okq_actualsize c : Pq c -> Sz c -> (forall lc c' incl, c = CPrefixed lc c' incl -> Pq lc /\ Sz lc) -> Sq (actualsize_with parse c).
+Lemma okq_prefixed_actualsize lc incl : Pq lc -> Sz lc -> Sq (prefixed_actualsize parse lc incl).
 Proof.
-  intros Hc Hs Hl cx p s. unfold actualsize_with. destruct c; try apply Hs.
-  destruct (Hl c1 c2 incl eq_refl) as [Hl1 Hl2].
+  intros Hl1 Hl2 cx p s. unfold prefixed_actualsize.
   apply okq_bind; [apply Hl1|intros [lv s1]]. apply okq_bind; [destruct lv; exact I|intros n].
   apply okq_bind; [destruct incl; [apply okq_bind; [apply Hl2|intros; exact I]|exact I]|intros; exact I].
 Qed.
+
+(* what the lazy loops need of a member's measure: stated directly (it is established where T is known, see asz_chain) *)
+Definition LF (c : con) : Prop := Sq (actualsize_with parse c).
+
+Lemma okq_actualsize c : Sz c -> LF c -> Sq (actualsize_with parse c).
+Proof. intros _ H. exact H. Qed.
 
 Lemma okq_lazy_step Pc Ac nm p st : Pq1 Pc -> Sq Ac -> okq T p (lazy_step Pc Ac nm p st).
 Proof.
@@ -213,7 +218,7 @@ Proof.
 Qed.
 
 (* members with their own sub-constructs well behaved *)
-Definition Pq3 (c : con) : Prop := Pq c /\ Sz c /\ (forall lc c' incl, c = CPrefixed lc c' incl -> Pq lc /\ Sz lc).
+Definition Pq3 (c : con) : Prop := Pq c /\ Sz c /\ LF c.
 
 Lemma okq_lazy_scan_struct cs : Forall Pq3 cs -> forall p st, okq T p (lazy_scan_struct parse cs p st).
 Proof.
@@ -302,24 +307,41 @@ Ltac pkm := repeat first [ pk_parse | progress pk
                          | match goal with |- okq _ _ (match bits2integer ?a ?b with _ => _ end) => destruct (bits2integer a b) end
                          | match goal with |- okq _ _ (match (if ?c then swapbytesinbits ?d else Some ?d) with _ => _ end) => destruct (if c then swapbytesinbits d else Some d) end ].
 
-Definition Pch2 (c : con) : Prop := Pq (chain c) c /\ (forall lc c' incl, c = CPrefixed lc c' incl -> Pq (chain lc) lc).
+Definition Pch2 (c : con) : Prop := Pq (chain c) c /\ LFok (fun l => Pq (chain l) l) c.
 
 Lemma chain_sub2 C c lc t : In c (subcons C) -> In lc (subcons c) -> chain lc t -> chain C t.
 Proof. intros H1 H2 H. apply (ch_sub C c); [exact H1|]. apply (ch_sub c lc); assumption. Qed.
 
+Lemma okq_pa_chain lc c' incl cx p s : Pq (chain lc) lc ->
+  okq (chain (CPrefixed lc c' incl)) p (prefixed_actualsize parse lc incl cx p s).
+Proof.
+  intros Hl. eapply okq_mono; [|apply (okq_prefixed_actualsize (chain lc) lc incl Hl (sizeof_chain lc))].
+  intros t Ht. apply (ch_sub (CPrefixed lc c' incl) lc); [cbn; tauto|exact Ht].
+Qed.
+
+(* measuring a member: errors name a chain of the member (through the names and adapters Renamed / Adapter defer through) *)
+Lemma asz_chain : forall c, LFok (fun l => Pq (chain l) l) c -> forall cx p s, okq (chain c) p (actualsize_with parse c cx p s).
+Proof.
+  induction c; intros H cx p s; cbn [actualsize_with]; try apply sizeof_chain; cbn [LFok] in H;
+    try (match goal with |- okq (chain ?C) _ (actualsize_with parse ?c' _ _ _) => apply (okq_up C c'); [cbn; tauto|apply IHc; exact H] end).
+  - (* Renamed *) apply okq_ren, IHc, H.
+  - (* Prefixed *) apply okq_pa_chain, H.
+Qed.
+
 Lemma Pq3_of C c : In c (subcons C) -> Pch2 c -> Pq3 (chain C) c.
 Proof.
-  intros Hin [Hc Hl]. split; [|split].
+  intros Hin [Hc HL]. split; [|split].
   - intros cx p s. apply (okq_up C c); [exact Hin|apply Hc].
   - intros cx p. apply (okq_up C c); [exact Hin|apply sizeof_chain].
-  - intros lc c' incl E. subst c. split.
-    + intros cx p s. eapply okq_mono; [|apply (Hl lc c' incl eq_refl)]. intros t Ht. apply (chain_sub2 C (CPrefixed lc c' incl) lc); [exact Hin|cbn; tauto|exact Ht].
-    + intros cx p. eapply okq_mono; [|apply sizeof_chain]. intros t Ht. apply (chain_sub2 C (CPrefixed lc c' incl) lc); [exact Hin|cbn; tauto|exact Ht].
+  - intros cx p s. apply (okq_up C c); [exact Hin|apply asz_chain, HL].
 Qed.
 
 Theorem parse_chain2 : forall c, Pch2 c.
 Proof.
-  induction c using con_ind2; (split; [|intros lc0 c0 incl0 E0; try discriminate E0; injection E0 as -> -> ->; match goal with H : Pch2 lc0 |- _ => exact (proj1 H) end]).
+  induction c using con_ind2; (split; [|cbn [LFok];
+    first [ exact I
+          | match goal with H : Pch2 ?l |- Pq (chain ?l) ?l => exact (proj1 H) end
+          | match goal with H : Pch2 ?c' |- LFok _ ?c' => exact (proj2 H) end ]]).
   all: try (match goal with H : Forall (fun c : con => Pch2 c) ?cs |- Pq (chain ?C) _ =>
               assert (HF2 : Forall (Pq3 (chain C)) cs) by (rewrite Forall_forall in H |- *; intros c0 Hc0; apply Pq3_of; [cbn [subcons]; exact Hc0|apply H, Hc0]);
               assert (HF : Forall (Pq (chain C)) cs) by (eapply Forall_impl; [|exact HF2]; intros ? [? ?]; assumption); clear H; rename HF into H end).
@@ -370,7 +392,7 @@ Proof.
   all: try solve [ (* Checksum *) apply okq_bind; [pk_parse|intros [h1 s1]]; apply okq_bind; [pk|intros d]; destruct d; try exact I; destruct (val_eqb _ _); [exact I|apply okq_raise] ].
   all: try solve [ (* Lazy *)
       destruct (Pq3_of (CLazy c) c (or_introl eq_refl) (conj IHc IHl)) as (H1 & H2 & H3);
-      pose proof (okq_actualsize _ c H1 H2 H3 cx p s) as Ha; destruct (actualsize_with parse c cx p s) as [n|e q];
+      pose proof (okq_actualsize _ c H2 H3 cx p s) as Ha; destruct (actualsize_with parse c cx p s) as [n|e q];
       [ apply okq_bind; [apply okq_iseek|intros [r s1]]; apply okq_bind; [apply okq_lazy_force; exact H1|intros [v s2]; exact I]
       | destruct e; try exact Ha; apply okq_bind; [apply okq_iseek|intros [r s0]; apply H1] ] ].
   all: try solve [ (* LazyStruct *) apply okq_bind; [apply okq_lazy_scan_struct; exact HF2|intros [[[[[i off] cx1] s'] offs] cache]];
